@@ -11,9 +11,11 @@ import (
 	"os"
 	"os/exec"
 	"path/filepath"
+	"runtime"
 	"strings"
 	"sync"
 	"sync/atomic"
+	"syscall"
 	"time"
 )
 
@@ -44,6 +46,44 @@ func initWork() {
 	}
 	workDir = filepath.Join(base, fmt.Sprintf("run-%d", os.Getpid()))
 	os.MkdirAll(workDir, 0o755)
+}
+
+// acquireSlot takes one of NumCPU machine-wide solver slots (advisory file
+// locks shared by every gvc process), so that several checks running at once
+// do not oversubscribe the cores and turn 2-second queries into timeouts. The
+// solver's own time limit starts only once it holds a slot.
+func acquireSlot(cancelled func() bool) (release func()) {
+	base := os.Getenv("GVC_WORK")
+	if base == "" {
+		exe, _ := os.Executable()
+		base = filepath.Join(filepath.Dir(filepath.Dir(exe)), ".work")
+	}
+	dir := filepath.Join(base, "slots")
+	if err := os.MkdirAll(dir, 0o755); err != nil {
+		return func() {}
+	}
+	n := runtime.NumCPU()
+	if n < 2 {
+		n = 2
+	}
+	start := int(time.Now().UnixNano() % int64(n))
+	for {
+		for k := 0; k < n; k++ {
+			i := (start + k) % n
+			f, err := os.OpenFile(filepath.Join(dir, fmt.Sprintf("slot-%02d.lock", i)), os.O_CREATE|os.O_RDWR, 0o644)
+			if err != nil {
+				return func() {}
+			}
+			if syscall.Flock(int(f.Fd()), syscall.LOCK_EX|syscall.LOCK_NB) == nil {
+				return func() { syscall.Flock(int(f.Fd()), syscall.LOCK_UN); f.Close() }
+			}
+			f.Close()
+		}
+		if cancelled() {
+			return func() {}
+		}
+		time.Sleep(15 * time.Millisecond)
+	}
 }
 
 func cleanupWork() {
@@ -87,7 +127,7 @@ func Solve(query string, timeout time.Duration, wantModel bool) SolveResult {
 	}
 
 	hasQuant := strings.Contains(query, "(forall ") || strings.Contains(query, "(exists ")
-	ctx, cancel := context.WithTimeout(context.Background(), timeout+2*time.Second)
+	ctx, cancel := context.WithCancel(context.Background())
 	defer cancel()
 
 	type ans struct {
@@ -111,9 +151,17 @@ func Solve(query string, timeout time.Duration, wantModel bool) SolveResult {
 				ch <- ans{sv.name, "cancelled", "", 0}
 				return
 			}
+			release := acquireSlot(func() bool { return ctx.Err() != nil })
+			defer release()
+			if ctx.Err() != nil {
+				ch <- ans{sv.name, "cancelled", "", 0}
+				return
+			}
 			t0 := time.Now()
 			argv := sv.argv(file, int(timeout/time.Millisecond))
-			cmd := exec.CommandContext(ctx, argv[0], argv[1:]...)
+			cctx, ccancel := context.WithTimeout(ctx, timeout+2*time.Second)
+			defer ccancel()
+			cmd := exec.CommandContext(cctx, argv[0], argv[1:]...)
 			var out bytes.Buffer
 			cmd.Stdout = &out
 			cmd.Stderr = &out
@@ -132,6 +180,8 @@ func Solve(query string, timeout time.Duration, wantModel bool) SolveResult {
 				st = "unknown"
 			case ctx.Err() != nil:
 				st = "cancelled"
+			case cctx.Err() != nil:
+				st = "timeout"
 			default:
 				st = "error"
 			}
@@ -193,10 +243,12 @@ func solveCore(query string, timeout time.Duration) (unsat bool, usesStep bool) 
 	if os.Getenv("GVC_KEEP") == "" {
 		defer os.Remove(file)
 	}
-	ctx, cancel := context.WithTimeout(context.Background(), timeout+2*time.Second)
-	defer cancel()
 	solverSem <- struct{}{}
 	defer func() { <-solverSem }()
+	release := acquireSlot(func() bool { return false })
+	defer release()
+	ctx, cancel := context.WithTimeout(context.Background(), timeout+2*time.Second)
+	defer cancel()
 	argv := solvers[0].argv(file, int(timeout/time.Millisecond))
 	cmd := exec.CommandContext(ctx, argv[0], argv[1:]...)
 	var out bytes.Buffer
